@@ -1652,13 +1652,6 @@ bool QXmppMessage::parseExtension(const QDomElement &element, QXmpp::SceMode sce
             }
             return true;
         }
-        // XEP-0353: Jingle Message Initiation
-        if (QXmppJingleMessageInitiationElement::isJingleMessageInitiationElement(element)) {
-            QXmppJingleMessageInitiationElement jingleMessageInitiationElement;
-            jingleMessageInitiationElement.parse(element);
-            d->jingleMessageInitiationElement = jingleMessageInitiationElement;
-            return true;
-        }
         // XEP-0359: Unique and Stable Stanza IDs
         if (checkElement(element, u"stanza-id", ns_sid)) {
             d->stanzaIds.push_back(QXmppStanzaId {
@@ -1692,17 +1685,24 @@ bool QXmppMessage::parseExtension(const QDomElement &element, QXmpp::SceMode sce
             return true;
         }
 #endif
+    }
+    if (sceMode & QXmpp::SceSensitive) {
+        if (element.tagName() == u"body") {
+            d->body = element.text();
+            return true;
+        }
+        // XEP-0353: Jingle Message Initiation
+        if (QXmppJingleMessageInitiationElement::isJingleMessageInitiationElement(element)) {
+            QXmppJingleMessageInitiationElement jingleMessageInitiationElement;
+            jingleMessageInitiationElement.parse(element);
+            d->jingleMessageInitiationElement = jingleMessageInitiationElement;
+            return true;
+        }
         // XEP-0482: Call Invites
         if (QXmppCallInviteElement::isCallInviteElement(element)) {
             QXmppCallInviteElement callInviteElement;
             callInviteElement.parse(element);
             d->callInviteElement = callInviteElement;
-            return true;
-        }
-    }
-    if (sceMode & QXmpp::SceSensitive) {
-        if (element.tagName() == u"body") {
-            d->body = element.text();
             return true;
         }
         if (element.tagName() == u"subject") {
